@@ -85,6 +85,8 @@ class BVExec:
                 return a & b
             if op is ast.BitOr:
                 return a | b
+            if op is ast.BitXor:
+                return a ^ b
             if op is ast.LShift:
                 self.unwinding.append(z3.And(guard, z3.Not(z3.ULT(b, W))))
                 return a << b
